@@ -329,14 +329,23 @@ impl Exec for Ex {
             None => {}
         }
         if step.regen {
-            let next = sh.world.next.take().unwrap_or_else(|| proj.clone());
+            let next = sh.world.next.take().unwrap_or_else(|| sh.world.disk.clone());
             sh.world.disk = next;
             let files = sh.world.disk.render();
             for (name, text) in files {
-                sh.world.clock.write(&name, text.as_bytes());
+                // each generator writes its own file (a project without a separate generator for the
+                // included file writes both)
+                let mine = if step.subgen { name == "inc.ninja" } else { name != "inc.ninja" || !sh.world.disk.has_subgen() };
+                if mine {
+                    sh.world.clock.write(&name, text.as_bytes());
+                }
             }
             sh.manifest_regenerated = true;
-            sh.regen_since_load = true;
+            // only regeneration in the first phase obliges n2 to reload (a generator of an included file
+            // that runs again among the user targets is simply dirty work)
+            if !sh.phase2_seen {
+                sh.regen_since_load = true;
+            }
             // the record is judged against the manifest n2 currently has loaded
             let before = sh.world.log.len();
             sh.world.record_success(&proj, &step, None);
@@ -372,7 +381,7 @@ impl Exec for Ex {
                 }
             }
             if sh.tape.chance(20) {
-                let extra: Vec<&String> = proj.sources.iter().filter(|f| *f != "gen.in").collect();
+                let extra: Vec<&String> = proj.sources.iter().filter(|f| *f != "gen.in" && *f != "sub.in").collect();
                 if !extra.is_empty() {
                     v.push(extra[sh.tape.below(extra.len())].clone());
                 }
